@@ -184,4 +184,104 @@ def kpadloConstInvSpectrumFixed [Mul α] [Div α] [Add α] [One α] (d : α) (la
 def kpadloSymmInnerSpectrum [Div α] [Add α] [One α] (lam : List α) : List α :=
   lam.map fun l => 1 / (l + 1)
 
+/-! ## Part 3 — call histories on one object (memoisation)
+
+`@cached(name=…)` keys an entry by `(name, args, pickle(kwargs))`; the check calls every entry point either
+without arguments (`method=None`) or with `method=<m>` as keyword, so the key is `(entry, Option Method)`.
+Settings are *not* part of the key.  Two mechanisms make a result depend on earlier calls in the code as it is:
+the base Lanczos `_root_inv_decomposition` writes the root it computed alongside under `(root, none)`
+(`add_to_cache(self, "root_decomposition", …)`), and `_choose_root_method` probes the cache for a
+`diagonalization` entry. -/
+
+inductive Entry where
+  | root | rootinv | diag
+  deriving DecidableEq, Repr
+
+structure HKey where
+  e : Entry
+  m : Option Method
+  deriving DecidableEq
+
+/-- Where the object returned by a call comes from: computed by this call, the very object returned by call `i`
+(cache hit), or an object created inside call `i` but not returned by it (side write / inner call). -/
+inductive Src where
+  | own | hit (i : Nat) | side (i : Nat)
+  deriving DecidableEq, Repr
+
+/-- cache: key ↦ (index of the creating call, was it returned by that call) -/
+abbrev HState := List (HKey × Nat × Bool)
+
+def hlookup (st : HState) (k : HKey) : Option (Nat × Bool) :=
+  match st.find? (fun x => x.1 = k) with
+  | some x => some x.2
+  | none => none
+
+/-- `add_to_cache` overwrites. -/
+def hinsert (st : HState) (k : HKey) (v : Nat × Bool) : HState :=
+  (k, v) :: st.filter (fun x => x.1 ≠ k)
+
+def probeCfg (st : HState) (c : Cfg) : Cfg :=
+  { c with cDiag := st.any (fun x => x.1.e = .diag), cSymeig := false, cLanczos := false }
+
+/-- inner `self.diagonalization()` / `self.root_decomposition()` call made by call `idx`: a hit leaves the state
+unchanged, a miss stores an object created inside `idx`. -/
+def hinner (st : HState) (idx : Nat) (k : HKey) : HState :=
+  match hlookup st k with
+  | some _ => st
+  | none => hinsert st k (idx, false)
+
+/-- One public call on a base-class operator of size `n > 1` (dense `_cholesky/_symeig`). -/
+def hstep (n : Nat) (st : HState) (idx : Nat) (e : Entry) (m : Option Method) (c : Cfg) : HState × Src :=
+  let k : HKey := ⟨e, m⟩
+  match hlookup st k with
+  | some (i, true) => (st, .hit i)
+  | some (i, false) => (st, .side i)
+  | none =>
+    match e with
+    | .diag => (hinsert st k (idx, true), .own)
+    | .root =>
+      let m' := m.getD (chooseRootMethod n (probeCfg st c))
+      let st := if m' = .diagonalization then hinner st idx ⟨.diag, none⟩ else st
+      (hinsert st k (idx, true), .own)
+    | .rootinv =>
+      let m' := m.getD (chooseRootMethod n (probeCfg st c))
+      let st := if m' = .diagonalization then hinner st idx ⟨.diag, none⟩ else st
+      -- `pinverse` calls `self.root_decomposition()`; its own method selection may call `diagonalization()`
+      let st := if m' = .pinverse then
+          (match hlookup st ⟨.root, none⟩ with
+           | some _ => st
+           | none =>
+             let mr := chooseRootMethod n (probeCfg st c)
+             let st := if mr = .diagonalization then hinner st idx ⟨.diag, none⟩ else st
+             hinsert st ⟨.root, none⟩ (idx, false))
+        else st
+      -- the Lanczos path stores the root it computed alongside, overwriting an existing entry
+      let st := if m' = .lanczos then hinsert st ⟨.root, none⟩ (idx, false) else st
+      (hinsert st k (idx, true), .own)
+
+def hrunAux (n : Nat) : HState → Nat → List (Entry × Option Method × Cfg) → List Src
+  | _, _, [] => []
+  | st, idx, (e, m, c) :: rest =>
+    let (st', s) := hstep n st idx e m c
+    s :: hrunAux n st' (idx + 1) rest
+
+/-- Sources of the results of a history of calls on a fresh object. -/
+def hrun (n : Nat) (calls : List (Entry × Option Method × Cfg)) : List Src := hrunAux n [] 0 calls
+
+/-! ### Abstract memoisation (what the keying discipline buys) -/
+
+/-- A memo table keyed by `κ`; `call` returns the stored value or computes and stores it. -/
+def memoCall {κ σ ν : Type} [DecidableEq κ] (compute : κ → σ → ν) (st : List (κ × ν)) (k : κ) (s : σ) :
+    ν × List (κ × ν) :=
+  match st.find? (fun x => x.1 = k) with
+  | some x => (x.2, st)
+  | none => (compute k s, (k, compute k s) :: st)
+
+def memoRun {κ σ ν : Type} [DecidableEq κ] (compute : κ → σ → ν) :
+    List (κ × ν) → List (κ × σ) → List ν
+  | _, [] => []
+  | st, (k, s) :: rest =>
+    let (v, st') := memoCall compute st k s
+    v :: memoRun compute st' rest
+
 end LinOp.C06
